@@ -35,18 +35,18 @@ import (
 
 // Event is one API call as seen at the client boundary.
 type Event struct {
-	Seq    int
-	VTime  time.Time
-	Verb   string // get list create update patch delete deleteallof status-update status-patch evict
-	Kind   string
-	Key    string // namespace/name or name
-	Caller string // innermost Karpenter frame ("" for harness actors)
-	Stack  []string
-	Err    string
-	Before client.Object // deep copies (writes only)
-	After  client.Object // nil when the object is gone
-	Grace  *int64        // delete grace period if given
-	Injected bool        // Err was injected by the fault plan
+	Seq      int
+	VTime    time.Time
+	Verb     string // get list create update patch delete deleteallof status-update status-patch evict
+	Kind     string
+	Key      string // namespace/name or name
+	Caller   string // innermost Karpenter frame ("" for harness actors)
+	Stack    []string
+	Err      string
+	Before   client.Object // deep copies (writes only)
+	After    client.Object // nil when the object is gone
+	Grace    *int64        // delete grace period if given
+	Injected bool          // Err was injected by the fault plan
 }
 
 func (e Event) IsWrite() bool { return e.Verb != "get" && e.Verb != "list" }
@@ -64,7 +64,7 @@ type Fault struct {
 	Fired bool
 	// Sticky: keep failing every matching call from AtCall on (permanent error).
 	Sticky bool
-	seen  int
+	seen   int
 }
 
 // API is the in-process API server handed to Karpenter.
@@ -85,14 +85,14 @@ type API struct {
 	PostWrite []func(ev *Event)
 	// PreWrite monitors run before the write is applied (under wmu); they see the authoritative state
 	// the write is about to change.
-	PreWrite []func(verb string, obj client.Object, opts any)
+	PreWrite  []func(verb string, obj client.Object, opts any)
 	tracker   vtracker
 	crashed   bool
 	KeepReads bool // record get/list events too (default: only counted)
 	Reads     int
 	Writes    int
 	// Yield makes every Karpenter call yield the processor first (concurrent workloads).
-	Yield bool
+	Yield  bool
 	uidSeq int
 }
 
